@@ -101,8 +101,8 @@ func ahtHistory(r *vk.Run, maxN int, withProofs bool) error {
 		return err
 	}
 	defer func() { t.Close() }()
-	// the specification (coq/Merkle/AHT.v spec_step2): current content, content the commit log on
-	// disk stands for, and whether an append is buffered since the last sync point
+	// the specification: the payload list; `disk` = what the commit log on disk stands for (equal to
+	// the payloads at every sync point, i.e. after ResetSize, Close and whenever no append is buffered)
 	var payloads, disk [][]byte
 	dirty := false
 	syncPoint := func() {
@@ -139,8 +139,10 @@ func ahtHistory(r *vk.Run, maxN int, withProofs bool) error {
 				return fmt.Errorf("reset: %w", err)
 			}
 			if ns < len(payloads) {
-				syncPoint() // ResetSize syncs first; the commit-log file keeps its entries
+				// ResetSize syncs and cuts the commit log at once
 				payloads = append([][]byte{}, payloads[:ns]...)
+				disk = append([][]byte{}, payloads...)
+				dirty = false
 			}
 			mops = append(mops, fmt.Sprintf("R2 %d", ns))
 			ops = append(ops, fmt.Sprintf("reset(%d)", ns))
@@ -150,8 +152,7 @@ func ahtHistory(r *vk.Run, maxN int, withProofs bool) error {
 			}
 			ops = append(ops, "sync")
 		case x < 18 && r.Rng.Intn(2) == 0:
-			// Close + Open: the size comes back from the commit-log file (after a ResetSize that no
-			// append followed that is the pre-rewind content: known finding, in the model)
+			// Close + Open: the size comes back from the commit-log file; nothing may change
 			if err := t.Close(); err != nil {
 				return err
 			}
